@@ -1398,6 +1398,8 @@ class Frame:
                 return make_str(_piece_of(a) + _piece_of(b))
             if isinstance(a, (AList, ATuple)) or isinstance(b, (AList, ATuple)):
                 return Poly.atom(("call", "concat", (vkey(a), vkey(b)), ()))
+            if self._is_sequence_term(a) or self._is_sequence_term(b):
+                return Poly.atom(("call", "concat", (vkey(a), vkey(b)), ()))  # list + list, not number + number
             return as_term(a) + as_term(b)
         if isinstance(op, ast.Mult) and (isinstance(a, (AList, str)) or isinstance(b, (AList, str))):
             return Poly.atom(("call", "repeat", (vkey(a), vkey(b)), ()))
@@ -1412,6 +1414,18 @@ class Frame:
             return a ** b
         name = type(op).__name__
         return Poly.atom(("call", "op_" + name, (a.key(), b.key()), ()))
+
+    def _is_sequence_term(self, v):
+        """An uninterpreted value known to be a list: a concatenation, or the result of a repository function all of
+        whose namesakes return lists."""
+        a = v.as_atom() if isinstance(v, Poly) else None
+        if a is None:
+            return False
+        if a[0] == "call" and a[1] == "concat":
+            return True
+        if a[0] in ("call", "mcall") and isinstance(a[1], str):
+            return self.I.prog.returns_sequence(a[1].split(".")[-1])
+        return False
 
     def e_UnaryOp(self, e, st):
         v = self.eval(e.operand, st)
@@ -1720,6 +1734,9 @@ class Frame:
             if ci is not None and dotted.count(".") == 1:
                 m = self.I.prog.method(ci, dotted.split(".")[1])
                 if m is not None:
+                    folded = self.fold_delegate(m, args, kwargs, st, e)
+                    if folded is not None:
+                        return folded[0]
                     if self.should_inline(m):
                         is_static = any(d in ("staticmethod",) for d in m.decorators)
                         is_cls = any(d in ("classmethod",) for d in m.decorators)
@@ -1962,6 +1979,9 @@ class Frame:
             # specifications may name the shared numeric helpers without importing them
             fi = self.I.prog.functions.get("phyclone.utils.math." + dotted)
         if fi is not None:
+            folded = self.fold_delegate(fi, args, kwargs, st, node)
+            if folded is not None:
+                return folded[0]
             if self.should_inline(fi):
                 return self.call_function(fi, args, kwargs, st, node)
             nm = ALIASES.get(fi.name, fi.name)
@@ -2011,6 +2031,22 @@ class Frame:
             self.I.events.append(Event("." + a[2], args, {}, st.guards, node, recv=None))
             return Poly.atom(("mcall", a[2], a[1], tuple(vkey(x) for x in args), ()))
         raise Unsupported("call through reference %s" % show(fref))
+
+    def fold_delegate(self, fi, args, kwargs, st, node):
+        """The helper a reference function F hands its work to (`return helper(<F's parameters>)`), called from anywhere
+        but F itself — the recursion of F, now running through the helper — is the call of F with these arguments."""
+        dg = self.I.prog.delegates().get(fi.qualname)
+        if dg is None or self.fi is dg[0] or kwargs or len(args) != len(dg[1]):
+            return None
+        F, pos = dg
+        fargs = [None] * (max(pos) + 1)
+        for a_, j in zip(args, pos):
+            fargs[j] = a_
+        if any(x is None for x in fargs):
+            return None
+        nmF = (F.cls.name + "." + F.name) if F.cls is not None else ALIASES.get(F.name, F.name)
+        off = 0 if (F.cls is None or "staticmethod" in F.decorators) else 1
+        return (self.opaque_call(nmF, fargs[off:], {}, st, node),)
 
     def should_inline(self, fi):
         q = fi.qualname
@@ -2192,7 +2228,21 @@ class Frame:
                 while kwargs and len(args) < len(ps) and ps[len(args)] in kwargs:
                     args.append(kwargs.pop(ps[len(args)]))
         elif not name.startswith("new:"):
-            args, kwargs = self._positionalise(name.split(".")[-1], args, kwargs, False)
+            done = False
+            if kwargs and name.count(".") == 1:
+                # Class.method(...): the parameters are those of that method
+                cs = [c for c in self.I.prog.classes.values() if c.name == name.split(".")[0]]
+                m = self.I.prog.method(cs[0], name.split(".")[1]) if len(cs) == 1 else None
+                if m is not None:
+                    ps = list(m.params)
+                    if "staticmethod" not in m.decorators:
+                        ps = ps[1:]
+                    args, kwargs = list(args), dict(kwargs)
+                    while kwargs and len(args) < len(ps) and ps[len(args)] in kwargs:
+                        args.append(kwargs.pop(ps[len(args)]))
+                    done = True
+            if not done:
+                args, kwargs = self._positionalise(name.split(".")[-1], args, kwargs, False)
         self.I.events.append(Event(name, args, kwargs, st.guards, node))
         if name in self.I.commutative and len(args) >= 2:
             a0, a1 = sorted(args[:2], key=lambda x: _k(vkey(x)))
